@@ -13,7 +13,7 @@ PROP = {'title': 'Textual and binary encodings round-trip losslessly',
                'strings up to length 6 (quick 4) over one representative per UTF-8 length class plus structured long strings '
                '(a^i X^k a^j, X^n, cyclic mixes) instead of random strings up to 40; sanitizer aborts are attributed to the announced case',
  'binaries': [{'name': 'C15',
-               'sources': ['harness/C15.cpp', 'harness/C15_text.cpp', 'harness/C15_conv.cpp'],
+               'sources': ['harness/C15.cpp', 'harness/C15_text.cpp', 'harness/C15_conv.cpp', 'harness/C15_locale.cpp'],
                'libs': ['core'],
                'flavour': 'asan'}],
  'deadline': {'quick': 300, 'thorough': 1500},
